@@ -1,0 +1,41 @@
+// Copyright 2025 Democratized Data Foundation
+//
+// Use of this software is governed by the Business Source License
+// included in the file licenses/BSL.txt.
+//
+// As of the Change Date specified in that file, in accordance with
+// the Business Source License, use of this software will be governed
+// by the Apache License, Version 2.0, included in the file
+// licenses/APL.txt.
+
+//go:build verif
+
+package db
+
+import (
+	"context"
+	"errors"
+
+	"github.com/sourcenetwork/corekv"
+
+	"github.com/sourcenetwork/defradb/event"
+)
+
+// VerifMerge runs the merge that handleMessages would start in a goroutine for
+// the given event synchronously and returns the error that path only logs.
+//
+// It exists for the verification harness only (build tag verif).
+func (db *DB) VerifMerge(ctx context.Context, evt event.Merge) error {
+	col, err := getCollectionFromCollectionID(ctx, db, evt.CollectionID)
+	if err != nil {
+		return err
+	}
+	for i := 0; i < db.MaxTxnRetries(); i++ {
+		err = db.executeMerge(ctx, col, evt)
+		if errors.Is(err, corekv.ErrTxnConflict) {
+			continue
+		}
+		break
+	}
+	return err
+}
